@@ -30,7 +30,6 @@ package c20
 import (
 	"archive/zip"
 	"bytes"
-	"encoding/xml"
 	"errors"
 	"fmt"
 	"io"
@@ -50,34 +49,17 @@ import (
 
 // ---- what the external libraries say of some bytes ----------------------------------
 
-// xmlEnc*: META-INF/encryption.xml per OCF 3 §4.2.4 / XML-Encryption: a root
-// element `encryption` holding EncryptedData elements, each with an
-// EncryptionMethod/@Algorithm and a CipherData/CipherReference/@URI.
-type xmlEncRoot struct {
-	XMLName xml.Name     `xml:"encryption"`
-	Items   []xmlEncData `xml:"EncryptedData"`
-}
-
-type xmlEncData struct {
-	Method struct {
-		Algorithm string `xml:"Algorithm,attr"`
-	} `xml:"EncryptionMethod"`
-	Cipher struct {
-		Ref struct {
-			URI string `xml:"URI,attr"`
-		} `xml:"CipherReference"`
-	} `xml:"CipherData"`
-}
-
-// encField: what encoding/xml makes of an encryption.xml.
+// encField: what tabula's own xml.Unmarshal makes of an encryption.xml (the
+// entries are a parameter of Model/Admit.lean; Model/EncXml.lean models the
+// unmarshalling itself and c20.encxml ties it, see bytes.go).
 func encField(data []byte) string {
-	var root xmlEncRoot
-	if err := xml.Unmarshal(data, &root); err != nil {
+	es, err := epubdoc.VerifEncryptionEntries(data)
+	if err != nil {
 		return "e=B"
 	}
-	xs := make([]string, len(root.Items))
-	for i, it := range root.Items {
-		xs[i] = hx.HexS(it.Method.Algorithm) + "." + hx.HexS(it.Cipher.Ref.URI)
+	xs := make([]string, len(es))
+	for i, it := range es {
+		xs[i] = hx.HexS(it[0]) + "." + hx.HexS(it[1])
 	}
 	return "e=" + strings.Join(xs, ";")
 }
